@@ -19,7 +19,7 @@ from entity_query_language import symbol, predicate
 
 ID = "C08"
 LEVEL = "exploration"
-RULE = ("random histories of 6-16 steps over 15 operation kinds (incl. re-entering a query object that is already open and evaluating the(...) / a whole an(...) at the current nesting) with at most 3 live result iterators and nesting depth "
+RULE = ("random histories of 6-16 steps over 15 operation kinds (incl. re-entering a query object that is already open and evaluating the(...) / a whole an(...) at the current nesting, an evaluation in which user code raises, a the(...) over a sub-query that raises MultipleSolutionFound) with at most 3 live result iterators and nesting depth "
         "<= 4; an observation (mode, expression-stack depth, behaviour probes (constructor, @predicate call incl. a defaulted parameter given positionally, operators on a variable, a generator domain whose producer constructs @symbol objects); every third step also a fresh "
         "thread and an empty Context) after every step, compared with the reference stack machine. Non-trivial: the "
         "history advances, closes, drops or exhausts an iterator while the nesting depth differs from the depth at "
@@ -66,6 +66,14 @@ class Boom(Exception):
     pass
 
 
+@predicate
+def pos_or_boom(x):
+    """user code that raises in the middle of an evaluation (for the element with n == 3)"""
+    if x.n == 3:
+        raise Boom()
+    return x.n > 0
+
+
 OPS_ENTER = ["enter_q", "enter_r", "enter_rq", "enter_qq", "with_query", "reenter_open_query"]
 
 
@@ -77,7 +85,7 @@ def plan(tier, seed):
 def floors(tier):
     return {"distinct_nontrivial": 800, "observations": 20000, "op:enter_q": 500, "op:enter_r": 500, "op:enter_rq": 300,
             "op:enter_qq": 300, "op:with_query": 300, "op:leave": 1000, "op:raise_leave": 300, "op:mkit": 1000,
-            "op:next": 1000, "op:close": 300, "op:drop": 300, "op:exhaust": 300, "op:the_eval": 500, "op:an_list": 500,
+            "op:next": 1000, "op:close": 300, "op:drop": 300, "op:exhaust": 300, "op:the_eval": 500, "op:an_list": 500, "op:an_raise": 400, "op:the_multi_sub": 400,
             "op:reenter_open_query": 300, "thread_probes": 3000, "generator_domain_probes": 300,
             "cls:iterator_op_at_other_depth": 800}
 
@@ -88,7 +96,7 @@ def cases(spec, ctx):
         ops = []
         depth, live = 0, 0
         for _ in range(rng.randint(6, 16)):
-            choices = ["mkit", "the_eval", "an_list"] if live < 3 else ["the_eval", "an_list"]
+            choices = ["mkit", "the_eval", "an_list", "an_raise", "the_multi_sub"] if live < 3 else ["the_eval", "an_list", "an_raise", "the_multi_sub"]
             if depth < 4:
                 choices += OPS_ENTER
             if depth:
@@ -105,7 +113,7 @@ def cases(spec, ctx):
             elif op == "mkit":
                 live += 1
                 ops.append([op])
-            elif op in ("the_eval", "an_list"):
+            elif op in ("the_eval", "an_list", "an_raise", "the_multi_sub"):
                 ops.append([op])
             else:
                 idx = rng.randrange(live)
@@ -286,6 +294,32 @@ def check_case(case, ctx):
                 for o in mkq().evaluate():
                     if type(o) is not B:
                         fail = {"what": "RESULT_NOT_A_REAL_INSTANCE", "observed": type(o).__name__}
+            elif name == "an_raise":
+                # user code raises while a result is being computed; the exception is handled right here, at the current nesting
+                with symbolic_mode():
+                    x2 = let(B, bs)
+                    rq = an(entity(x2, pos_or_boom(x2)))
+                got_n = []
+                try:
+                    for o in rq.evaluate():
+                        got_n.append(getattr(o, "n", None))
+                    fail = {"what": "USER_EXCEPTION_SWALLOWED", "results": got_n}
+                except Boom:
+                    if got_n != [1, 2]:
+                        fail = {"what": "RESULTS_BEFORE_USER_EXCEPTION", "observed": got_n, "expected": [1, 2]}
+            elif name == "the_multi_sub":
+                # the(...) over a description with a nested an(...) sub-query and two solutions: MultipleSolutionFound is raised
+                # while the sub-query is suspended; handled here, the suspended generators are finalised when the handler ends
+                from entity_query_language import MultipleSolutionFound
+                with symbolic_mode():
+                    x3, y3 = let(B, bs), let(B, bs)
+                    tq2 = the(entity(x3, x3 == an(entity(y3, y3.n > 2))))
+                try:
+                    tq2.evaluate()
+                    fail = {"what": "THE_WITH_TWO_SOLUTIONS_DID_NOT_RAISE"}
+                except MultipleSolutionFound:
+                    pass
+                gc.collect()
             elif name == "leave":
                 _, _, cm = stack.pop()
                 tops.pop()
